@@ -30,7 +30,7 @@ If(c, name) == IF c THEN {name} ELSE {}
 \* (ids, most recent last), the cleanups already run, the contexts it obtained
 Frame(id, k) == [id |-> id, k |-> k, open |-> TRUE, stack |-> <<>>, ran |-> {}, running |-> 0, ctxs |-> {}, regs |-> 0]
 NoSM == [active |-> FALSE, hasInv |-> FALSE, needInv |-> FALSE, lastSkipped |-> FALSE, failed |-> FALSE, inAct |-> FALSE,
-         inInv |-> FALSE, skips |-> 0, completed |-> 0, actDraws |-> 0, nf |-> FALSE, invRuns |-> 0, steps |-> 0, ovr |-> FALSE, actions |-> {"*"}, key |-> "", pre |-> FALSE]
+         inInv |-> FALSE, skips |-> 0, completed |-> 0, actDraws |-> 0, nf |-> FALSE, invRuns |-> 0, steps |-> 0, ovr |-> FALSE, actions |-> {"*"}, key |-> "", pre |-> FALSE, maxSkips |-> 0]
 
 Init == /\ l = 1 /\ scen = [id |-> ""] /\ fr = <<>> /\ kind = "none" /\ sm = NoSM /\ viol = {} /\ seen = {}
 
@@ -39,11 +39,13 @@ SetTop(f) == [fr EXCEPT ![Len(fr)] = f]
 \* index of the frame of invocation id (0 if none)
 FrameOf(id) == LET S == { i \in 1..Len(fr) : fr[i].id = id } IN IF S = {} THEN 0 ELSE CHOOSE i \in S : TRUE
 
+Max2(a, b) == IF a >= b THEN a ELSE b
 VerdictOf ==
   [ C10 |-> {"context_dead_during_call", "context_live_at_cleanup", "context_live_after_call", "cleanup_not_lifo", "cleanup_not_run",
              "cleanup_run_twice_or_unknown", "cleanup_before_return", "invocation_overlap", "cleanup_after_end", "context_shared_between_invocations"},
     C08 |-> {"invariant_not_first", "invariant_missing_after_action", "invariant_after_skipped_action", "continued_after_falsification",
-             "actions_overlap", "no_valid_action_not_reported", "skipped_action_counted", "invariant_not_run_once", "hangs", "skipped_action_invalidates_run", "action_not_supplied", "action_not_the_drawn_one"} ]
+             "actions_overlap", "no_valid_action_not_reported", "skipped_action_counted", "invariant_not_run_once", "hangs", "skipped_action_invalidates_run", "action_not_supplied", "action_not_the_drawn_one",
+             "gave_up_with_runnable_actions"} ]
 Verdicts == IF Property = "ALL" THEN UNION { VerdictOf[p] : p \in DOMAIN VerdictOf } ELSE VerdictOf[Property]
 
 ScenBegin == /\ Is("scen.begin") /\ Adv /\ scen' = Ev /\ fr' = <<>> /\ kind' = "none" /\ sm' = NoSM /\ viol' = {} /\ seen' = {}
@@ -58,7 +60,7 @@ Phase == /\ Is("h.phase") /\ Adv /\ kind' = Ev.kind /\ seen' = seen \cup {Ev.kin
 OnceBegin ==
   /\ Is("h.once.begin") /\ Adv
   /\ viol' = viol \cup If(fr # <<>>, "invocation_overlap")
-  /\ fr' = <<>> /\ sm' = NoSM /\ UNCHANGED <<scen, kind, seen>>
+  /\ fr' = <<>> /\ sm' = [NoSM EXCEPT !.maxSkips = sm.maxSkips] /\ UNCHANGED <<scen, kind, seen>>
 
 InvBegin ==
   /\ Is("inv.begin") /\ Adv
@@ -164,7 +166,7 @@ Ctx ==
 \* ---- T.Repeat ---------------------------------------------------------------
 SmBegin ==
   /\ Is("sm.begin") /\ Adv
-  /\ sm' = [NoSM EXCEPT !.active = TRUE, !.hasInv = Ev.hasinv, !.needInv = Ev.hasinv,
+  /\ sm' = [NoSM EXCEPT !.active = TRUE, !.hasInv = Ev.hasinv, !.needInv = Ev.hasinv, !.maxSkips = sm.maxSkips,
                         !.actions = IF "actions" \in DOMAIN Ev THEN { Ev.actions[i] : i \in 1..Len(Ev.actions) } ELSE {"*"},
                         \* (the test case may have failed non-fatally before Repeat is entered: then no action runs at all)
                         !.failed = IF "failedbefore" \in DOMAIN Ev THEN Ev.failedbefore ELSE FALSE,
@@ -208,8 +210,17 @@ SmActEnd ==
                          !.needInv = IF ok THEN sm.hasInv ELSE FALSE,
                          !.failed = @ \/ (~ok /\ ~skipped),
                          !.completed = IF ok THEN @ + 1 ELSE @,
-                         !.skips = IF skipped /\ sm.actDraws = 0 THEN @ + 1 ELSE 0]
+                         !.skips = IF skipped /\ sm.actDraws = 0 THEN @ + 1 ELSE 0,
+                         \* the longest run of actions skipped in place that Repeat has put up with in this scenario (another action was tried next)
+                         !.maxSkips = IF skipped /\ sm.actDraws = 0 THEN @ ELSE Max2(@, sm.skips)]
   /\ viol' = viol /\ UNCHANGED <<scen, fr, kind, seen>>
+
+\* Repeat gives up: "can't find a valid (non-skipped) action" (hook).  However many skipped tries it takes (not part of the property), the budget
+\* is one per step: it cannot give up after fewer actions skipped in a row than it has put up with before in the same scenario
+ActionNone ==
+  /\ Is("h.action.none") /\ Adv
+  /\ viol' = viol \cup If(sm.active /\ sm.skips <= sm.maxSkips, "gave_up_with_runnable_actions")
+  /\ UNCHANGED <<scen, fr, kind, sm, seen>>
 
 \* draws and signals inside an action / invariant
 \* Under -rapid.v the TB is told which action key Repeat drew; the action function that then runs (it announces itself with a draw event
@@ -247,14 +258,14 @@ SmEnd ==
 
 Handled == {"h.custom.begin", "hang", "example.begin", "example.end", "scen.begin", "scen.end", "h.phase", "h.once.begin", "inv.begin", "cinv.begin", "inv.end", "cinv.end", "h.custom.end", "h.once.end",
             "cleanup.reg", "cleanup.run", "cleanup.end", "ctx", "sm.begin", "sm.inv.begin", "sm.inv.end", "sm.action.begin", "sm.action.end",
-            "draw", "call", "h.repeat.more", "sm.end", "h.overrun", "tb.logf"}
+            "draw", "call", "h.repeat.more", "sm.end", "h.overrun", "tb.logf", "h.action.none"}
 \* the watchdog saw an invocation still running after 90 s: the library hung
 Hang == /\ Is("hang") /\ Adv /\ viol' = viol \cup {"hangs"} /\ UNCHANGED <<scen, fr, kind, sm, seen>>
 
 Other == /\ l <= Len(Trace) /\ Trace[l].ev \notin Handled /\ Adv /\ UNCHANGED <<scen, fr, kind, sm, viol, seen>>
 
 Next == CustomBegin \/ Hang \/ ExampleBegin \/ ExampleEnd \/ ScenBegin \/ ScenEnd \/ Phase \/ OnceBegin \/ InvBegin \/ CInvBegin \/ InvEnd \/ CInvEnd \/ CustomEnd \/ OnceEnd \/ Reg \/ Run \/ RunEnd
-        \/ Ctx \/ SmBegin \/ SmInvBegin \/ SmInvEnd \/ SmActBegin \/ SmActEnd \/ SmKeyLogged \/ SmDraw \/ SmCall \/ RepeatMore \/ Overrun \/ SmEnd \/ Other
+        \/ Ctx \/ SmBegin \/ SmInvBegin \/ SmInvEnd \/ SmActBegin \/ SmActEnd \/ SmKeyLogged \/ SmDraw \/ SmCall \/ RepeatMore \/ Overrun \/ SmEnd \/ ActionNone \/ Other
 
 Spec == Init /\ [][Next]_vars
 
